@@ -126,7 +126,7 @@ def differential_evolution(
 
             # Mutant vector
             mutant = base_vec[:]
-            for d in range(num_diffs):
+            for d in range(len(diff_indices) // 2):  # one difference only after the rand/1 fallback
                 r1, r2 = diff_indices[2 * d], diff_indices[2 * d + 1]
                 for j in range(n):
                     mutant[j] += mutation * (population[r1][j] - population[r2][j])
